@@ -397,6 +397,14 @@ def gen_case(rng):
         for e in extra:
             ops.insert(rng.randint(1, len(ops)) if rng.random() < 0.8 else 0, e)
         ops = ops[:6]
+    if second is None and rng.random() < 0.14:
+        # the application registers response callbacks of its own (logout / re-login performed while the callbacks run)
+        if not ops:
+            ops = [[0]]
+        for _ in range(rng.choice([1, 1, 2])):
+            reg = [6] if rng.random() < 0.6 else [7, gen_uval(rng), rng.choice([None, None, 5]), gen_tokens(rng)]
+            ops.insert(rng.randint(0, len(ops)), reg)
+        ops = ops[:7]
     case = {'cfg': cfg, 'req': {'cookie': cookie, 'ip': ip, 'host': host, 'now': now, 'half': rng.random() < 0.25,
                                 'tick': (not seam) and rng.random() < 0.25},
             'second': second, 'ops': ops,
@@ -430,12 +438,16 @@ def valid(case):
             return False
         sec = case.get('second')
         for op in case['ops']:
-            if op[0] not in (0, 1, 2, 3, 4, 5) or (op[0] % 3 == 1 and (len(op) != 4 or not _uval_ok(op[1]) or
-                                                                    not all(isinstance(t, str) for t in op[3]))):
+            if op[0] not in (0, 1, 2, 3, 4, 5, 6, 7):
                 return False
-            if op[0] % 3 != 1 and len(op) != 1:
+            long_op = op[0] in (1, 4, 7)
+            if long_op and (len(op) != 4 or not _uval_ok(op[1]) or not all(isinstance(t, str) for t in op[3])):
                 return False
-            if op[0] >= 3 and not sec:
+            if not long_op and len(op) != 1:
+                return False
+            if 3 <= op[0] <= 5 and not sec:
+                return False
+            if op[0] in (6, 7) and sec:
                 return False
         if sec:
             c2 = sec['cfg']
